@@ -42,3 +42,39 @@ PROPS = {
     'C19': _p('exploration'),
     'C20': _p('exploration'),
 }
+
+
+# Additional property tags per function (applied when the overlay is loaded): a function belongs to the cone of
+# every property whose statement quantifies over it.  Kept here, precise per function, so that a failed obligation
+# is reported for exactly the properties it breaks.
+_OH = 'open_hypergraph::OpenHypergraph::'
+EXTRA_PROPS = {
+    _OH + 'compose': ['C03', 'C04', 'C10', 'C12', 'C14'],
+    _OH + 'arrow_compose': ['C03', 'C04', 'C10', 'C12', 'C20'],
+    'open_hypergraph::OpenHypergraph::oh_shr': ['C03', 'C04', 'C05', 'C20'],
+    _OH + 'tensor': ['C03', 'C04', 'C10', 'C12', 'C14', 'C20'],
+    'open_hypergraph::OpenHypergraph::oh_bitor': ['C03', 'C05', 'C20'],
+    _OH + 'identity': ['C03', 'C10', 'C12'],
+    _OH + 'arrow_identity': ['C03', 'C04', 'C10'],
+    _OH + 'twist': ['C10', 'C20'],
+    _OH + 'dagger': ['C10', 'C14'],
+    _OH + 'spider': ['C10', 'C12'],
+    _OH + 'spider_trait': ['C10'],
+    'open_hypergraph::half_spider': ['C10'],
+    _OH + 'source': ['C03'],
+    _OH + 'target': ['C03'],
+    _OH + 'arrow_source': ['C01', 'C03'],
+    _OH + 'arrow_target': ['C01', 'C03'],
+    _OH + 'singleton': ['C10', 'C12'],
+    _OH + 'tensor_operations': ['C12'],
+    'hypergraph::Hypergraph::coproduct': ['C03', 'C20'],
+    'hypergraph::Hypergraph::coequalize_vertices': ['C03', 'C20'],
+    'functor::define_map_arrow': ['C20'],
+    'functor::spider_map_arrow': ['C20'],
+    'graph::converse': ['C20'],
+    'graph::operation_adjacency': ['C20'],
+    'layer::layer': ['C20'],
+    'hypergraph_arrow::HypergraphArrow::validate': ['C20'],
+    'optic::interleave_blocks': ['C20'],
+    'optic::partial_dagger': ['C20'],
+}
